@@ -286,12 +286,17 @@ def random_registry(rng, n, nmethods, max_arity, max_defs, shapes=None):
     return classes, edges, methods, defs, abstract, kind
 
 
-def history_script(sid, bindings, hist, npol=1, observe_every_step=False, shape_k=0):
+def history_script(sid, bindings, hist, npol=1, observe_every_step=False, shape_k=0, layout_too=False):
     """hist: list of ops as printed by Yomm2MC ([op, p, x]).  After every update (or after every
     step, for isolation) everything observable is observed on every policy."""
     s = Script(sid, bindings)
+    declared = {}
     for h in hist:
         op, p, x = h["op"], h["p"], h["x"]
+        if op == "m":
+            declared.setdefault(p, set()).add(x["m"])
+        elif op == "um":
+            declared.setdefault(p, set()).discard(x["m"])
         if op == "c":
             s.cls(x["c"], list(x["bases"]), abstract=x["abs"], p=p, r=x["r"])
         elif op == "uc":
@@ -311,4 +316,8 @@ def history_script(sid, bindings, hist, npol=1, observe_every_step=False, shape_
         if observe_every_step or op == "u":
             for q in range(npol):
                 s.observe_all(p=q)
+                if layout_too and op == "u":     # C04: the installed layout and the addresses the calls read (hook H2)
+                    s.layout(p=q)
+                    for m in sorted(declared.get(q, ())):
+                        s.reads(m, p=q)
     return s
